@@ -1,6 +1,8 @@
 package props
 
 import (
+	"encoding/hex"
+	"math/big"
 	"strings"
 	"testing"
 )
@@ -62,7 +64,7 @@ func init() {
 			// While they still reproduce, extreme amounts are capped (and counted) so that the search
 			// goes on behind them.
 			g.CapBits = 0
-			if active["C11.I1.halt/dec-overflow"] || active["C11.I1.halt/power-int64"] {
+			if active["C11.I1.halt/dec-overflow"] || active["C11.I1.halt/power-int64"] || active["C11.I2.consensus-would-panic/power-exceeds-consensus-maximum"] {
 				g.CapBits = 40
 				g.Capped = &cappedC11
 			}
@@ -74,6 +76,9 @@ func init() {
 				if i < len(m.Outs) && m.Outs[i].OK && a.Amount != "" && amt(a.Amount).BitLen() > 60 {
 					big = true
 				}
+				if i < len(m.Outs) && m.Outs[i].OK && a.Kind == "rawCall" && rawCallHasBigWord(a.Data) {
+					big = true
+				}
 			}
 			if !big {
 				return ""
@@ -83,6 +88,9 @@ func init() {
 			}
 			if act["C11.I1.halt/power-int64"] && strings.Contains(v.Msg, "Int64() out of bound") {
 				return "C11.I1.halt/power-int64"
+			}
+			if act["C11.I2.consensus-would-panic/power-exceeds-consensus-maximum"] && strings.Contains(v.Msg, "voting power can't be higher") {
+				return "C11.I2.consensus-would-panic/power-exceeds-consensus-maximum"
 			}
 			return ""
 		},
@@ -106,7 +114,7 @@ func init() {
 	base := *worldProps["C11"]
 	base.Name = "C11AVS"
 	w := avsWeights()
-	for k, v := range map[string]int{"payFee": 3, "nativeDelegate": 2, "optIn": 2, "optOut": 1, "setKey": 1, "undelegate": 4, "depositNST": 1, "nstUpdate": 1, "regToken": 3, "regChain": 1, "updToken": 1} {
+	for k, v := range map[string]int{"payFee": 3, "nativeDelegate": 2, "optIn": 2, "optOut": 1, "setKey": 1, "undelegate": 4, "depositNST": 1, "nstUpdate": 1, "regToken": 3, "regChain": 1, "updToken": 1, "rawCall": 14} {
 		w[k] = v
 	}
 	base.Gen = GenOpts{Weights: w, HostilePct: 15, ExtremePct: 4, MaxDt: 40, Tempos: []int{7, 21, 45}, Dynamic: avsDynamic, Anchor: true}
@@ -116,3 +124,19 @@ func init() {
 }
 
 func TestC11AVS(t *testing.T) { runWorldProp(t, "C11AVS") }
+
+// rawCallHasBigWord: does the calldata of a raw precompile call carry a 32-byte word above 2^60
+// that is not an address-like or all-ones padding value (i.e. possibly an amount)?
+func rawCallHasBigWord(dataHex string) bool {
+	b, err := hex.DecodeString(dataHex)
+	if err != nil || len(b) < 36 {
+		return false
+	}
+	for off := 4; off+32 <= len(b); off += 32 {
+		w := new(big.Int).SetBytes(b[off : off+32])
+		if w.BitLen() > 60 {
+			return true
+		}
+	}
+	return false
+}
